@@ -343,7 +343,8 @@ def main():
             total_cases += len(cases)
             traces += len(cases)
             for c in cases:
-                key = json.dumps(c["i"], sort_keys=True)
+                # engines whose input term is only a size summary (net) are told apart by what was observed
+                key = json.dumps(c["i"], sort_keys=True) + (json.dumps(c["o"], sort_keys=True) if eng.get("distinct_io") else "")
                 if c.get("nt"):
                     distinct_nt.add(hashlib.md5(key.encode()).hexdigest())
                 for t in c.get("tags", []):
